@@ -58,6 +58,15 @@ def optimize (tfhd : Tfhd) (t : Trun) : Option (Tfhd × Trun) :=
     let t := if t.hasCto ∧ all.all (fun s => s.cto == 0) then { t with hasCto := false } else t
     some (tfhd, t)
 
+/-- `n` passes of `OptimizeTfhdTrun` over the same traf: the same fragment object is optimised every time it is encoded
+    (`Fragment.Encode`/`EncodeSW` called again, or the caller optimises itself to learn the final `Size()`) -/
+def optimizeN : Nat → Tfhd → Trun → Option (Tfhd × Trun)
+  | 0, tfhd, t => some (tfhd, t)
+  | n + 1, tfhd, t =>
+    match optimize tfhd t with
+    | none => none
+    | some (tfhd', t') => optimizeN n tfhd' t'
+
 /-- what trun encode → decode preserves of the per-sample values: a field whose flag is clear is not written and
     decodes as 0, except that sample 0 gets `first_sample_flags` when that is present and per-sample flags are not -/
 def wire (t : Trun) : List Sample :=
